@@ -164,6 +164,44 @@ def run(c, replay):
             c.violation("content-only:twin-differs", dict(kind="property", case=a, twin=b, impl=[lc[i], lc[i + 1]]), True)
         gen0 += 1
     if corr_bad and not c.violations:
+        # the model no longer describes the implementation: search around the disagreeing triple for an input on which the implementation
+        # itself breaks a law (third messages whose differing key lies between / half a range away from the two that disagree)
+        t = corr_bad["case"]
+        extra = []
+        for x in range(3):
+            for y in range(3):
+                if x == y:
+                    continue
+                for _ in range(150):
+                    cmsg = dict(r.choice([t[x], t[y]]))
+                    f = r.choice(["type", "type", "size", "flags", "t", "pl"])
+                    if f == "type":
+                        lo, hi = sorted([t[x]["type"], t[y]["type"]])
+                        cmsg["type"] = r.choice([(lo + hi) // 2, ((lo + hi) // 2 + (1 << 31)) % (1 << 32), (lo + (1 << 31)) % (1 << 32), (hi + (1 << 31)) % (1 << 32),
+                                                  (lo + (1 << 30)) % (1 << 32), (hi + (1 << 30)) % (1 << 32), r.below(1 << 32)])
+                    elif f == "size":
+                        cmsg["size"] = r.choice(SIZES)
+                        cmsg["pl"] = (list(cmsg["pl"]) + [r.below(256) for _ in range(140)])[:cmsg["size"] + 3]
+                    elif f == "flags":
+                        cmsg["flags"] ^= r.choice([1, 2, 4, 0x10000])
+                    elif f == "t":
+                        cmsg["t"] = r.choice(TIMES + [t[x]["t"], t[y]["t"]])
+                    elif cmsg["size"] > 0:
+                        cmsg["pl"] = list(cmsg["pl"])
+                        k = r.below(cmsg["size"])
+                        cmsg["pl"][k] = (cmsg["pl"][k] + r.choice([1, 127, 128, 129, 255])) % 256
+                    extra.append([t[x], t[y], cmsg])
+        rc2, out2, err2 = V.run([exe], inp="\n".join(line_of(e) for e in extra) + "\n")
+        for e, l in zip(extra, out2.split("\n")):
+            f2 = l.split()
+            if len(f2) < 2:
+                break
+            law = laws(f2[0]) or laws(f2[1])
+            if law:
+                c.violation("swo-law:" + law.split("(")[0], dict(kind="property", law=law, case=e, impl=f2[:2], found_by="search around the triple on which model and implementation disagree",
+                            how="./check C16 --replay <this file>"), found_input=True)
+                break
+    if corr_bad and not c.violations:
         c.violation("correspondence", corr_bad, found_input=False)
     if not proof_ok and not c.violations:
         c.violation("proof", c.broken_proof, found_input=False)
